@@ -5,7 +5,7 @@ import sym
 
 CONFIGS_QUICK = ["F_all", "F_nool"]  # every configuration whose cfg-gated code the property depends on
 CONFIGS_THOROUGH = ["F_all", "F_nool"]
-TECHNIQUE = 'static analysis: sink discipline (taint classes of every fmt::Write operand in se::*), validated-type typestate for XmlName with exact interval sets of the name classes, tag-pairing sequences, QuoteTarget inheritance, crate-wide no-partial-write who-may-call rule, compile-fail witness'
+TECHNIQUE = 'static analysis: sink discipline (taint classes of every fmt::Write operand in se::*), validated-type typestate for XmlName with exact interval sets of the name classes, tag-pairing sequences, QuoteTarget inheritance, crate-wide no-partial-write who-may-call rule, compile-fail witness, write_fmt counted as a sink'
 EXPLANATION = (
     "Sink discipline of the serde serializer: every fmt::Write::write_str/write_char call in se::* and every call of the "
     "three write_str wrappers is enumerated and its operand classified by its symbolic source (literal, field 0 of the "
